@@ -17,14 +17,14 @@ def matchEnds : Nat → Option Nat → Nat → Text → List Nat
     | some n => (k + n) :: matchEnds (k + 1) (some c) (n - 1) rest
 
 /-- loop body as a partial function: `none` = `continue` -/
-def verdict (ck : Option (List (List (List Nat)))) (input s : Text) (e0 : Nat) : Option Cand :=
-  match examine ck input s e0 with
+def verdict (v : CkVariant) (ck : Option (List (List (List Nat)))) (input s : Text) (e0 : Nat) : Option Cand :=
+  match examine v ck input s e0 with
   | .veto => none
   | r => some r
 
-theorem scan_eq_findSome {ck : Option (List (List (List Nat)))} {input s : Text} :
+theorem scan_eq_findSome {v : CkVariant} {ck : Option (List (List (List Nat)))} {input s : Text} :
     ∀ (l : Text) (k : Nat) (prev : Option Nat) (skip : Nat),
-      scan ck input s k prev skip l = (matchEnds k prev skip l).findSome? (verdict ck input s) := by
+      scan v ck input s k prev skip l = (matchEnds k prev skip l).findSome? (verdict v ck input s) := by
   intro l
   induction l with
   | nil => intro k prev skip; simp [scan, matchEnds]
@@ -37,7 +37,7 @@ theorem scan_eq_findSome {ck : Option (List (List (List Nat)))} {input s : Text}
       | none => simp only [scan, matchEnds, hb]; exact ih _ _ _
       | some n =>
         simp only [scan, matchEnds, hb, List.findSome?_cons, verdict]
-        cases he : examine ck input s (k + n) with
+        cases he : examine v ck input s (k + n) with
         | veto => simp only; exact ih _ _ _
         | accept e => rfl
         | panic => rfl
@@ -132,8 +132,8 @@ theorem isContinuousPhrase_some {s : Text} {eos : Nat} (h1 : 1 ≤ eos) (h2 : eo
     | cons c cs => exact ⟨_, rfl⟩
 
 /-- without a checker the loop body cannot panic on a match end inside the window -/
-theorem examine_none_no_panic {input s : Text} {e0 : Nat} (h0 : 1 ≤ e0) :
-    examine none input s e0 ≠ .panic := by
+theorem examine_none_no_panic {v : CkVariant} {input s : Text} {e0 : Nat} (h0 : 1 ≤ e0) :
+    examine v none input s e0 ≠ .panic := by
   unfold examine
   split
   · simp
@@ -149,16 +149,16 @@ theorem examine_none_no_panic {input s : Text} {e0 : Nat} (h0 : 1 ≤ e0) :
       · simp [hlt]
 
 /-- the first match (in `find_iter` order) that the loop body does not veto decides `get_eos` -/
-theorem first_unvetoed_decides {limit : Nat} {ck : Option (List (List (List Nat)))} {input : Text}
+theorem first_unvetoed_decides {limit : Nat} {v : CkVariant} {ck : Option (List (List (List Nat)))} {input : Text}
     (hne : input ≠ []) {e0 : Nat} (hm : e0 ∈ matchEnds 0 none 0 (input.take limit))
-    (hv : examine ck input (input.take limit) e0 ≠ .veto) :
+    (hv : examine v ck input (input.take limit) e0 ≠ .veto) :
     ∃ e0', e0' ∈ matchEnds 0 none 0 (input.take limit) ∧ e0' ≤ e0 ∧
-      ((∃ e, examine ck input (input.take limit) e0' = .accept e ∧ getEos limit ck input = .ok (.pos e)) ∨
-       (examine ck input (input.take limit) e0' = .panic ∧ getEos limit ck input = .panic)) := by
-  have hscan := scan_eq_findSome (ck := ck) (input := input) (s := input.take limit) (input.take limit) 0 none 0
+      ((∃ e, examine v ck input (input.take limit) e0' = .accept e ∧ getEos v limit ck input = .ok (.pos e)) ∨
+       (examine v ck input (input.take limit) e0' = .panic ∧ getEos v limit ck input = .panic)) := by
+  have hscan := scan_eq_findSome (v := v) (ck := ck) (input := input) (s := input.take limit) (input.take limit) 0 none 0
   have hsorted := matchEnds_sorted (input.take limit) 0 none 0
   have hempty : input.isEmpty = false := by cases input <;> simp_all
-  cases hfs : (matchEnds 0 none 0 (input.take limit)).findSome? (verdict ck input (input.take limit)) with
+  cases hfs : (matchEnds 0 none 0 (input.take limit)).findSome? (verdict v ck input (input.take limit)) with
   | none =>
     rw [List.findSome?_eq_none_iff] at hfs
     have := hfs e0 hm
@@ -190,7 +190,7 @@ theorem first_unvetoed_decides {limit : Nat} {ck : Option (List (List (List Nat)
     unfold verdict at hfa
     unfold getEos
     simp only [hempty, Bool.false_eq_true, if_false, hscan]
-    cases hex : examine ck input (input.take limit) a with
+    cases hex : examine v ck input (input.take limit) a with
     | veto => simp [hex] at hfa
     | accept e =>
       simp only [hex, Option.some.injEq] at hfa
@@ -202,11 +202,11 @@ theorem first_unvetoed_decides {limit : Nat} {ck : Option (List (List (List Nat)
       exact Or.inr ⟨rfl, rfl⟩
 
 /-- the loop body without a checker vetoes only for the three stated reasons -/
-theorem not_vetoed_of {input s : Text} {e0 : Nat}
+theorem not_vetoed_of {v : CkVariant} {input s : Text} {e0 : Nat}
     (h1 : parenLevel (s.take e0) = 0) (h2 : isItemizeHeader s = false)
     (h3 : ∀ eos, eos = (if e0 < s.length then e0 + prohibitedBos (s.drop e0) else e0) →
       eos < s.length → isContinuousPhrase s eos ≠ some true) :
-    examine none input s e0 ≠ .veto := by
+    examine v none input s e0 ≠ .veto := by
   unfold examine
   have : ¬ parenLevel (s.take e0) > 0 := by omega
   simp only [this, if_false, h2, Bool.false_eq_true]
@@ -223,9 +223,9 @@ theorem not_vetoed_of {input s : Text} {e0 : Nat}
   · simp [hlt]
 
 /-- `get_eos` without a checker, as a search over the `find_iter` matches -/
-theorem getEos_none_scan (limit : Nat) (input : Text) :
-    scan none input (input.take limit) 0 none 0 (input.take limit)
-      = (matchEnds 0 none 0 (input.take limit)).findSome? (verdict none input (input.take limit)) :=
+theorem getEos_none_scan (v : CkVariant) (limit : Nat) (input : Text) :
+    scan v none input (input.take limit) 0 none 0 (input.take limit)
+      = (matchEnds 0 none 0 (input.take limit)).findSome? (verdict v none input (input.take limit)) :=
   scan_eq_findSome _ _ _ _
 
 end Sentence
